@@ -155,19 +155,25 @@ def cxx_syntax_check(tu_text: str, include_dirs: List[str], std: str = "c++17"):
         shutil.rmtree(d, ignore_errors=True)
 
 
-def cxx_ast(tu_text: str, include_dirs: List[str], filt: Optional[str] = None, std: str = "c++17") -> List[CNode]:
+def cxx_ast(tu_text: str, include_dirs: List[str], filt: Optional[str] = None, std: str = "c++17", allow_errors: bool = False, extra_files: Optional[Dict[str, str]] = None) -> List[CNode]:
     """JSON AST dump (optionally filtered by qualified-name prefix) of a checker-written TU."""
     d = tempfile.mkdtemp(prefix="fcpverif-cxx-")
     try:
         p = os.path.join(d, "tu.cpp")
         with open(p, "w") as f:
             f.write(tu_text)
-        args = ["-std=" + std, "-fsyntax-only", "-I", STUBS] + ["-I" + x for x in include_dirs] + ["-Xclang", "-ast-dump=json"]
+        for fn, txt in (extra_files or {}).items():
+            with open(os.path.join(d, fn), "w") as f:
+                f.write(txt)
+        args = ["-std=" + std, "-fsyntax-only", "-I", d, "-I", STUBS] + ["-I" + x for x in include_dirs] + ["-Xclang", "-ast-dump=json"]
+        if allow_errors:
+            args += ["-ferror-limit=0"]
         if filt:
             args += ["-Xclang", "-ast-dump-filter=" + filt]
         r = run_clang(args + [p], timeout=300)
-        if r.returncode != 0:
+        if r.returncode != 0 and not (allow_errors and r.stdout.strip()):
             raise AnalysisError("clang++ cannot parse the checker's translation unit: %s" % r.stderr[-400:])
+        cxx_ast.last_errors = [l for l in r.stderr.splitlines() if " error: " in l]
         out = []
         dec = json.JSONDecoder()
         s = r.stdout
